@@ -870,6 +870,348 @@ def run_conversions(ctx):
 
 
 # ---------------------------------------------------------------------------------------------------
+# tie (b), method / subscript chains: `x[h:l]`, `x[i]`, `.msb(k)`, `.lsb(k)`, `.msb(rest=r)`, `.lsb(rest=r)`,
+# `.left(k)`, `.right(k)`, `.msb()`, `.lsb()`, `.left()`, `.right()` nested 1..4 deep, interleaved with
+# `.unsigned / .signed / .bitvector` views and `resize`, on an operand x of every kind and width 10..12.
+# Legs: constant design (x = module-level constant, chain folded by the tracer), port-fed design (x = input port,
+# simulated on all / many values), the Python objects, and plain integer arithmetic on the bit pattern.
+# chain text:  <K><W> step;step;...   with steps  s<h>,<l> | i<i> | m<k> | l<k> | M<r> | L<r> | f<k> | r<k> |
+#              m | l | f | r | vu | vs | vv | z<t>
+# ---------------------------------------------------------------------------------------------------
+
+def chain_parse(text):
+    head, _, steps = text.partition(" ")
+    return head[0], int(head[1:]), [st for st in steps.split(";") if st]
+
+
+def _step_args(st):
+    return [int(x) for x in st[1:].split(",")] if len(st) > 1 and st[0] != "v" else []
+
+
+def chain_step(k, w, n, st):
+    """integer semantics of one step on (kind, width, bit pattern); kind 'b' = Bit.  None = not applicable."""
+    c, a = st[0], _step_args(st)
+    if k == "b":
+        return None
+    if c == "v":
+        return ({"u": "u", "s": "s", "v": "v"}[st[1]], w, n)
+    if c == "z":
+        if k == "v" or a[0] < w:
+            return None
+        if k == "s" and n >> (w - 1):
+            n |= ((1 << a[0]) - 1) ^ ((1 << w) - 1)
+        return (k, a[0], n)
+    if c == "s":
+        h, l = a
+        return ("v", h - l + 1, (n >> l) & ((1 << (h - l + 1)) - 1)) if 0 <= l <= h < w else None
+    if c == "i":
+        return ("b", 1, (n >> a[0]) & 1) if 0 <= a[0] < w else None
+    if not a:   # .msb() .lsb() .left() .right()
+        return ("b", 1, (n >> (w - 1)) & 1 if c in "mf" else n & 1)
+    cnt = a[0] if c in "mlfr" else w - a[0]
+    if not 1 <= cnt <= w:
+        return None
+    return ("v", cnt, n >> (w - cnt) if c in "mMf" else n & ((1 << cnt) - 1))
+
+
+def chain_eval(text, n):
+    k, w, steps = chain_parse(text)
+    cur = (k, w, n)
+    for st in steps:
+        cur = chain_step(*cur, st)
+        if cur is None:
+            return None
+    return cur
+
+
+def chain_expr(text, name):
+    _k, _w, steps = chain_parse(text)
+    e = name
+    for st in steps:
+        c, a = st[0], _step_args(st)
+        if c == "v":
+            e += {"u": ".unsigned", "s": ".signed", "v": ".bitvector"}[st[1]]
+        elif c == "z":
+            e += f".resize({a[0]})"
+        elif c == "s":
+            e += f"[{a[0]}:{a[1]}]"
+        elif c == "i":
+            e += f"[{a[0]}]"
+        else:
+            meth = {"m": "msb", "l": "lsb", "M": "msb", "L": "lsb", "f": "left", "r": "right"}[c]
+            e += f".{meth}({'' if not a else (('rest=' if c in 'ML' else '') + str(a[0]))})"
+    return e
+
+
+def chain_depth(text):
+    return sum(1 for st in chain_parse(text)[2] if st[0] not in "vz")
+
+
+def chain_key(text):
+    k, w, steps = chain_parse(text)
+    return (chain_depth(text), len(steps), sum(sum(_step_args(st)) for st in steps), text)
+
+
+def gen_chain(rng, k, w):
+    depth = rng.choice([1, 2, 3, 3, 4, 4])
+    cur = (k, w)
+    steps = []
+    for d in range(depth):
+        if rng.random() < 0.3:
+            v = rng.choice("usv")
+            steps.append("v" + v)
+            cur = (v, cur[1])
+        if cur[0] != "v" and cur[1] < 14 and rng.random() < 0.15:
+            t = cur[1] + rng.randrange(0, 3)
+            steps.append(f"z{t}")
+            cur = (cur[0], t)
+        cw = cur[1]
+        last = d == depth - 1
+        kinds = ["s"] * 4 + ["m", "l", "M", "L", "f", "r"]
+        if last:
+            kinds += ["i", "i", "m0", "l0", "f0", "r0"]
+        c = rng.choice(kinds)
+        need = depth - d   # keep enough width for the remaining steps
+        if c == "s":
+            lo = rng.randrange(0, max(1, cw - need + 1))
+            if rng.random() < 0.6 and cw - need >= 1:
+                lo = max(lo, 1) if lo + need <= cw else lo   # non-zero offsets matter
+            hi = rng.randrange(min(cw - 1, lo + need - 1), cw)
+            steps.append(f"s{hi},{lo}")
+            cur = ("v", hi - lo + 1)
+        elif c == "i":
+            steps.append(f"i{rng.randrange(cw)}")
+            break
+        elif len(c) == 2:
+            steps.append(c[0])
+            break
+        else:
+            cnt = rng.randrange(min(cw, need), cw + 1)
+            if cnt == cw and cw > need and rng.random() < 0.7:
+                cnt -= 1
+            steps.append(f"{c}{cnt if c in 'mlfr' else cw - cnt}")
+            cur = ("v", cnt)
+    if rng.random() < 0.25 and steps[-1][0] not in "im lfr".replace(" ", "") or False:
+        pass
+    if cur[0] in "usv" and steps and len(steps[-1]) > 1 and rng.random() < 0.25:
+        steps.append("v" + rng.choice("usv"))
+    return f"{k}{w} " + ";".join(steps)
+
+
+def systematic_chains(k, w):
+    """small deterministic family (depth 2..4, non-zero offsets on the outer slices) so that the minimal replay
+    does not depend on the seed"""
+    out = []
+    for a, b in ((1, 1), (2, 1), (1, 0), (0, 1), (0, 0)):
+        out += [f"{k}{w} s{w - 1},{a};s{w - 2 - a},{b};s1,0", f"{k}{w} s{w - 1},{a};s{w - 2 - a},{b};i0",
+                f"{k}{w} s{w - 1},{a};s{w - 2 - a},{b};s2,1;i1", f"{k}{w} s{w - 1},{a};s2,{b}"]
+    out += [f"{k}{w} m{w - 1};l{w - 3};m2", f"{k}{w} M1;L1;f2;r", f"{k}{w} s10,2;s6,1;s3,2", f"{k}{w} s10,2;s6,1;i3",
+            f"{k}{w} vu;s9,2;vs;l4;vu;z6", f"{k}{w} f9;r7;m"]
+    return [c for c in out if chain_eval(c, 0) is not None]
+
+
+def chain_const_design(k, w, consts, chains):
+    src = [HEADER] + [f"c{j} = {const_src(f'{k}{w}:{v if k != chr(115) or v < (1 << (w - 1)) else v - (1 << w)}')}" for j, v in enumerate(consts)]
+    src.append("class E(cohdl.Entity):")
+    body = []
+    for i, ch in enumerate(chains):
+        rk, rw, _ = chain_eval(ch, 0)
+        for j in range(len(consts)):
+            src.append(f"    o{i * len(consts) + j} = Port.output({type_src(f'{rk}{rw}:0' if rk != 'b' else 'b:0')})")
+            body.append(f"            self.o{i * len(consts) + j} <<= {chain_expr(ch, f'c{j}')}")
+    src += ["    def architecture(self):", "        @std.concurrent", "        def logic():"]
+    return "\n".join(src + body) + "\n"
+
+
+def chain_port_design(k, w, chains):
+    src = [HEADER, "class E(cohdl.Entity):", f"    p = Port.input({type_src(f'{k}{w}:0')})"]
+    body = []
+    for i, ch in enumerate(chains):
+        rk, rw, _ = chain_eval(ch, 0)
+        src.append(f"    o{i} = Port.output({type_src(f'{rk}{rw}:0' if rk != 'b' else 'b:0')})")
+        body.append(f"            self.o{i} <<= {chain_expr(ch, 'self.p')}")
+    src += ["    def architecture(self):", "        @std.concurrent", "        def logic():"]
+    return "\n".join(src + body) + "\n"
+
+
+def _to_pat(v, w):
+    return None if v is None else v & ((1 << w) - 1)
+
+
+def _chain_batch(jobs):
+    """jobs: ('const', src, n_outputs, None) | ('port', src, n_outputs, (kind, values)) -> [[pattern per output]] per value
+    | 'rejected:..' | 'not-executable:..' (raw bit patterns as unsigned ints; None for metavalues)"""
+    from .common import compile_task
+    out = []
+    for kind, src, n, arg in jobs:
+        c = compile_task((src, "E"))
+        if not c["ok"]:
+            out.append("rejected:" + c["errtype"] + ": " + c["err"][-120:])
+            continue
+        try:
+            d = Design(c["vhdl"])
+
+            def read():
+                r = []
+                for i in range(n):
+                    b = _raw_bits(d.get_raw(f"o{i}"))
+                    r.append(int(b, 2) if set(b) <= {"0", "1"} else None)
+                return r
+            if kind == "const":
+                d.initialise()
+                d.settle()
+                out.append([read()])
+            else:
+                res = []
+                for t, v in enumerate(arg[1]):
+                    d.set("p", v if arg[0] != "s" or v < (1 << (arg[2] - 1)) else v - (1 << arg[2]))
+                    if t == 0:
+                        d.initialise()
+                    d.settle()
+                    res.append(read())
+                out.append(res)
+        except (VhdlTypeError, VhdlRuntimeError) as e:
+            out.append(f"not-executable:{type(e).__name__}: {e}"[:160])
+    return out
+
+
+def _chain_model_chunk(task):
+    """Python objects of /repo: the chain applied to the constant object, for every value"""
+    import_cohdl()
+    k, w, chains, values = task
+    out = []
+    for ch in chains:
+        expr = compile(chain_expr(ch, "x"), "<chain>", "eval")
+        row = []
+        for v in values:
+            x = mk_obj(f"{k}{w}:{v if k != 's' or v < (1 << (w - 1)) else v - (1 << w)}")
+            try:
+                r = canon(eval(expr, {"x": x}))
+            except BaseException:  # noqa
+                r = "err"
+            row.append(r)
+        out.append(row)
+    return out
+
+
+def chain_expected_token(ch, v):
+    rk, rw, n = chain_eval(ch, v)
+    if rk == "b":
+        return f"b:{n}"
+    if rk == "s" and n >> (rw - 1):
+        return f"s{rw}:{n - (1 << rw)}"
+    return f"{rk}{rw}:{n}"
+
+
+def chain_run(configs):
+    """configs: [(k, w, chains, consts, values)] -> per config dict with 'const', 'port' results per chain
+    ([patterns per const] / [patterns per value] / error string) and 'model' tokens"""
+    results = [{"const": {}, "port": {}} for _ in configs]
+    todo = [(ci, which, list(cfg[2])[i:i + 16]) for ci, cfg in enumerate(configs) for which in ("const", "port")
+            for i in range(0, len(cfg[2]), 16)]
+    while todo:
+        jobs = []
+        for ci, which, chains in todo:
+            k, w, _c, consts, values = configs[ci]
+            if which == "const":
+                jobs.append(("const", chain_const_design(k, w, consts, chains), len(chains) * len(consts), None))
+            else:
+                jobs.append(("port", chain_port_design(k, w, chains), len(chains), (k, values, w)))
+        res = fork_map(_chain_batch, [[j] for j in jobs], fresh=True)
+        nxt = []
+        for (ci, which, chains), r in zip(todo, res):
+            if r[0] != "ok":
+                raise RuntimeError(f"chain worker failed: {r[1]}")
+            r = r[1][0]
+            if isinstance(r, str):
+                if len(chains) == 1:
+                    results[ci][which][chains[0]] = r
+                else:
+                    h = len(chains) // 2
+                    nxt += [(ci, which, chains[:h]), (ci, which, chains[h:])]
+                continue
+            nc = len(configs[ci][3])
+            for i, ch in enumerate(chains):
+                if which == "const":
+                    results[ci][which][ch] = r[0][i * nc:(i + 1) * nc]
+                else:
+                    results[ci][which][ch] = [row[i] for row in r]
+        todo = nxt
+    return results
+
+
+def run_chains(ctx):
+    rng = ctx.rng
+    cfgs = ctx.scale([("v", 12, 128), ("u", 11, 128), ("s", 10, 1024)],
+                     [(k, w, 1 << w) for k in "usv" for w in (10, 11, 12)])
+    n_random = ctx.scale(28, 150)
+    configs = []
+    for k, w, nvals in cfgs:
+        chains = systematic_chains(k, w)
+        while len(chains) < len(systematic_chains(k, w)) + n_random:
+            c = gen_chain(rng, k, w)
+            if chain_eval(c, 0) is not None and c not in chains:
+                chains.append(c)
+        allv = list(range(1 << w))
+        values = allv if nvals >= len(allv) else sorted(set(
+            [0, (1 << w) - 1, 1 << (w - 1), 0x555 & ((1 << w) - 1), 0xAAA & ((1 << w) - 1)] + rng.sample(allv, nvals - 5)))
+        consts = [0xB72 & ((1 << w) - 1), rng.choice(values), 0x5A5 & ((1 << w) - 1) | (1 << (w - 1))]
+        configs.append((k, w, chains, consts, values))
+    results = chain_run(configs)
+    mtasks = [(k, w, chains, sorted(set(consts)) if not ctx.quick else sorted(set(consts + values[:8] + values[-4:]))) for k, w, chains, consts, values in configs]
+    models = fork_map(_chain_model_chunk, mtasks, fresh=False, chunk=1)
+    bad = {}
+    n_cmp = 0
+    for (k, w, chains, consts, values), res, mt, mo in zip(configs, results, mtasks, models):
+        if mo[0] != "ok":
+            raise RuntimeError(f"python worker failed: {mo[1]}")
+        for ci, ch in enumerate(chains):
+            ctx.evaluations += 1
+            ctx.dist[f"chain:depth{chain_depth(ch)}"] += 1
+            ctx.distinct.add("chain " + ch)
+            rk, rw, _ = chain_eval(ch, 0)
+            cr, pr = res["const"].get(ch), res["port"].get(ch)
+            problem = None
+            # Python objects vs integer semantics
+            for v, tok in zip(mt[3], mo[1][ci]):
+                if tok != chain_expected_token(ch, v):
+                    problem = ("chain-python-vs-spec", f"Python objects give {tok} for x = {v}, bit arithmetic {chain_expected_token(ch, v)}", v)
+                    break
+            if isinstance(pr, str):
+                problem = ("chain-port-design-" + pr.split(":")[0], pr)
+            elif isinstance(cr, str):
+                problem = ("chain-const-design-" + cr.split(":")[0], cr)
+            else:
+                for v, got in zip(consts, cr):
+                    n_cmp += 1
+                    exp = chain_eval(ch, v)[2]
+                    if got != exp:
+                        problem = ("chain-fold-vs-spec", f"x = {v} ({format(v, f'0{w}b')}): constant design drives {got}, Python objects / bit arithmetic {exp}", v)
+                        break
+                for v, got in zip(values, pr):
+                    n_cmp += 1
+                    exp = chain_eval(ch, v)[2]
+                    if got != exp:
+                        # the folded side (constant design on the probe constants, Python objects) follows the bit
+                        # arithmetic: the run-time logic differs from what the same chain folds to for x = v
+                        problem = ("chain-fold-vs-runtime", f"x = {v} ({format(v, f'0{w}b')}): folded at compile time (Python objects / bit arithmetic) the chain gives {exp}, the port-fed design selects {got}", v)
+                        break
+            if problem:
+                c = (problem[0], k)
+                if c not in bad or chain_key(ch) < chain_key(bad[c][0]):
+                    bad[c] = (ch, problem[1], w, problem[2] if len(problem) > 2 else 0xB72 & ((1 << w) - 1))
+    ctx.obligation(f"correspondence (b, method/subscript chains): folded constant = port-fed design = Python objects = bit arithmetic "
+                   f"on {sum(len(c[2]) for c in configs)} chains (depth 1..4) x operand values ({n_cmp} comparisons)", not bad,
+                   detail=f"{len(bad)} disagreeing classes")
+    for (kind, k), (ch, detail, w, val) in sorted(bad.items()):
+        expr = chain_expr(ch, "x")
+        ctx.report(f"{kind}:{k}", f"`{expr}` with x : {type_src(f'{k}{w}:0')}: {detail}",
+                   {"case": "chain " + ch, "expression": expr, "detail": detail, "value": val,
+                    "constant_design": chain_const_design(k, w, [val], [ch]),
+                    "port_design": chain_port_design(k, w, [ch])})
+
+
+# ---------------------------------------------------------------------------------------------------
 
 def chunked(it, n):
     buf = []
@@ -916,7 +1258,7 @@ def run(ctx: Ctx):
                 "distinct = distinct (operator, operands)")
     lines = list(gen_exhaustive(maxw_a, ctx.scale(3, 5)))
     n_exh = len(lines)
-    wide = gen_random_wide(rng, ctx.scale(6000, 200000))
+    wide = gen_random_wide(rng, ctx.scale(4000, 200000))
     lines += wide
     triples = eval_all(lines)
 
@@ -970,6 +1312,7 @@ def run(ctx: Ctx):
                    not problems, detail=f"{len(problems)} disagreements in {len(classes_b)} classes")
 
     run_conversions(ctx)
+    run_chains(ctx)
 
     reported = set()
     # 1. python fold differs from the documented / run-time value: confirm through the designs and report
@@ -1017,6 +1360,21 @@ def run(ctx: Ctx):
 def replay(ctx, data):
     r = data["replay"]
     line = r["case"]
+    if line.startswith("chain "):
+        ch = line[len("chain "):]
+        k, w, _steps = chain_parse(ch)
+        values = sorted({r.get("value", 0), 0xB72 & ((1 << w) - 1), 0x5A5 & ((1 << w) - 1) | (1 << (w - 1)), (1 << w) - 1, 0x555 & ((1 << w) - 1)})
+        res = chain_run([(k, w, [ch], values, values)])[0]
+        mo = _chain_model_chunk((k, w, [ch], values))[0]
+        exp = [chain_eval(ch, v)[2] for v in values]
+        print("expression       :", r.get("expression"), f"  x : {type_src(f'{k}{w}:0')}")
+        print("x values         :", values)
+        print("bit arithmetic   :", exp)
+        print("python objects   :", mo)
+        print("constant design  :", res["const"].get(ch))
+        print("port-fed design  :", res["port"].get(ch))
+        ok = res["const"].get(ch) == exp and res["port"].get(ch) == exp and mo == [chain_expected_token(ch, v) for v in values]
+        return 0 if ok else 1
     if line.startswith("conv "):
         res, _n = conv_eval([line], False)
         cv, pv, mv = res[line]
